@@ -455,7 +455,8 @@ def candidates(info, rng):
     lo = max(mn, cur // 2)
     need_f = "bigalloc" in feats
     stable = "stable_inodes" in feats
-    out = {k: [] for k in ("min", "boundary", "random", "convert", "refuse", "same", "chain", "gdtgrow")}
+    out = {k: [] for k in ("min", "boundary", "random", "convert", "refuse", "same", "chain", "gdtgrow",
+                           "force")}
 
     def case(kind, size=None, flags=(), note=""):
         fl = (["-f"] if need_f and kind != "refuse" else []) + list(flags)
@@ -534,6 +535,13 @@ def candidates(info, rng):
             t = mn - rng.randint(1, max(1, min(mn // 4, mn - fdb - 32)))
             if t < cur:
                 out["refuse"].append(case("refuse", str(t), note="below-minimum"))
+    if not stable and mn > fdb + 64 and mn <= cur:
+        # -f overrides the minimum-size estimate: the run may succeed (then everything is judged as
+        # usual - the allocator works in its tightest mode) or fail, but never quietly lose anything
+        for _ in range(4):
+            t = mn - rng.randint(1, max(1, min(mn // 6, mn - fdb - 32)))
+            if t < cur:
+                out["force"].append(case("force", str(t), ["-f"] if not need_f else [], note="forced-below-P"))
     if stable and cur > mn + 8:
         out["refuse"].append(case("refuse", str(rng.randint(mn, cur - 1)), note="stable_inodes-shrink"))
     if need_f:
@@ -541,8 +549,8 @@ def candidates(info, rng):
     return out
 
 
-QUOTA = [("boundary", .29), ("random", .18), ("min", .18), ("convert", .10), ("chain", .08),
-         ("refuse", .08), ("gdtgrow", .05), ("same", .04)]
+QUOTA = [("boundary", .25), ("random", .16), ("min", .18), ("convert", .10), ("chain", .08),
+         ("refuse", .08), ("gdtgrow", .05), ("same", .04), ("force", .06)]
 
 def req_blocks(size, bs):
     if size is None:
